@@ -59,7 +59,11 @@ type G struct {
 }
 
 func New(r *simrt.Rng, p Params) *G {
-	return &G{R: r, P: p, Strs: []string{"a", "b", "c", "ab", "xyz", "q", "foo", "k"}}
+	// mostly plain strings (so that pattern-restricted leaves find a match and histories
+	// revisit values), plus a few that are valid but unusual as list keys and leaf values:
+	// a colon (module-prefix look-alike), a slash, '=', a space, a dot, a leading digit
+	return &G{R: r, P: p, Strs: []string{"a", "b", "c", "ab", "xyz", "q", "foo", "k", "a", "b", "c", "ab",
+		"65000:100", "eth0:1", "ge-0/0/1", "k=v", "x y", "1.2.3.4", "9lives", "ab:cd:ef"}}
 }
 
 func (g *G) chance(p float64) bool {
